@@ -5,7 +5,7 @@
 here="$(dirname "$(readlink -f "$0")")"; patch="$(readlink -f "$1")"; tier="$2"; shift 2
 tag="$(basename $(dirname $patch))_$(basename $patch .diff)_$$"
 wt=/tmp/mwt_$tag
-git -C /repo worktree add -q --detach $wt HEAD || exit 2
+for try in 1 2 3 4 5; do git -C /repo worktree add -q --detach $wt HEAD && break; sleep 3; done; [ -d $wt ] || { echo "INFRA: worktree add failed"; exit 2; }
 trap 'git -C /repo worktree remove --force '$wt'; echo "[worktree removed]"' EXIT
 git -C $wt apply "$patch" || exit 2
 cd "$here/.."
